@@ -358,6 +358,17 @@ impl DcpsDomainParticipant {
             }
         }
 
+        if self
+            .domain_participant
+            .content_filtered_topic_list
+            .iter()
+            .any(|x| x.related_topic_name == topic_name)
+        {
+            return Err(DdsError::PreconditionNotMet(
+                "Topic still attached to some content filtered topic".to_string(),
+            ));
+        }
+
         self.domain_participant
             .locally_created_topic_list
             .retain(|x| x.topic_name != topic_name);
@@ -428,6 +439,28 @@ impl DcpsDomainParticipant {
         participant_handle: &InstanceHandle,
         name: String,
     ) -> DdsResult<()> {
+        let Some(index) = self
+            .domain_participant
+            .content_filtered_topic_list
+            .iter()
+            .position(|x| x.topic_name == name)
+        else {
+            return Err(DdsError::AlreadyDeleted);
+        };
+        for subscriber in self.domain_participant.user_defined_subscriber_list.iter() {
+            if subscriber
+                .data_reader_list
+                .iter()
+                .any(|reader| reader.topic_name == name)
+            {
+                return Err(DdsError::PreconditionNotMet(
+                    "Content filtered topic still attached to some data reader".to_string(),
+                ));
+            }
+        }
+        self.domain_participant
+            .content_filtered_topic_list
+            .remove(index);
         Ok(())
     }
 
@@ -548,6 +581,8 @@ impl DcpsDomainParticipant {
                 self.announce_deleted_data_reader(data_reader, runtime);
             }
         }
+
+        self.domain_participant.content_filtered_topic_list.clear();
 
         self.domain_participant
             .locally_created_topic_list
